@@ -7,3 +7,4 @@ WITNESSES = ['C13W1Fail', 'C13W1Twin']
 
 def rules(ctx):
     S.c13_rules(ctx)
+    S.walker_rules(ctx)
